@@ -55,6 +55,11 @@ SPEC = Spec(
          "EnsureCapacity, Clear, Value.CopyTo between disjoint positions at any depth, Map.CopyTo/Slice.CopyTo between disjoint containers, "
          "Value.MoveTo between roots, read-only) over 2-4 root pcommon.Values nested up to depth 10; the dump of every root including the "
          "capacity of every nested container is compared after every op; non-trivial = contains a copy. "
+         "elem-plog / elem-pmetric (exact differential against the nested model through the record embedding): random programs of 8-48 ops "
+         "over 2-3 plog.LogRecordSlice / pmetric.ExemplarSlice handles (AppendEmpty, field sets, map operations on the element's attribute "
+         "map and on maps nested in it, bytes append, slice RemoveIf/EnsureCapacity/CopyTo/MoveAndAppendTo, element CopyTo, Map.CopyTo and "
+         "Value.CopyTo between elements, read-only); every capacity at every level compared. ptrslice-ptrace/-pmetric/-pprofile: the ptrslice "
+         "differential on SpanSlice, NumberDataPointSlice, ProfilesSlice. "
          "prim (exact differential + Lean oracle): random programs over 2-4 pcommon.UInt64Slice (Append, SetAt, EnsureCapacity, FromRaw, "
          "CopyTo, MoveTo, read-only); non-trivial = a copy into a destination with spare capacity. "
          "tree (plain-Go reference model, no Lean model): 5-45 random public ops at random positions of 2-3 randomly filled plog.Logs "
@@ -74,6 +79,9 @@ SPEC = Spec(
         "containers addressed by object id, paths of the harness resolved by the driver at call time; tied by exact differential incl. the "
         "capacity of every nested container; the element loop writes the destination header back at the end (equal to in-place writes "
         "under the separation hypothesis)",
+        "record embedding: a generated message element owning containers (pointer-slice element or inline value-slice element) is a "
+        "fixed-arity array container of its fields in the nested model; justified by reading the generated CopyTo/RemoveIf/MoveAndAppendTo "
+        "and checked by exact differential (elem-plog, elem-pmetric), not proved in Lean; the driver expands AppendEmpty (appendrec)",
         "hand-written model of primitive slices (copyX = append(dst[:0], src...)), tied by exact differential on pcommon.UInt64Slice",
         "translator translators/cmd/pdatamsg (go/ast): reads the statement shapes of every generated message CopyTo/MoveTo (four known "
         "shapes, else failure), the setters/wrapper getters of the struct, and counts the optional/one-of descriptions in the generator tables",
@@ -81,8 +89,7 @@ SPEC = Spec(
         "Go's append growth policy is an input (capacity observed after the call)",
         "translator translators/cmd/pdatacensus (go/ast): classifies exported value-receiver methods of pdata wrapper types by a syntactic "
         "rule (writes through an expression containing `orig` / mutator name pattern / first statement is AssertMutable)",
-        "generated value slices with inline containers (ExemplarSlice, AttributeTableSlice), pointer-slice elements owning maps/slices, nested "
-        "message fields, nested moves: NOT modelled in Lean; checked by Go reference-model oracles only (tree, metric, witness harnesses); ptrace/pprofile share the templates "
+        "nested message fields (opaque in the message model), nested Value.MoveTo/Map.MoveTo, element MoveTo/Sort of record slices: NOT modelled in Lean; checked by Go reference-model oracles only (tree, metric, witness harnesses); ptrace/pprofile share the templates "
         "and are not exercised separately",
         "the driver re-tabulates the heap function after every step (extensionally equal on allocated ids)",
     ],
